@@ -145,7 +145,8 @@ def make_pool(seed):
         return _pool_cache[seed]
     r = expand(b'num' + seed, 16)
     codes = {
-        'a.p8': b'src_a=%d\nprint("a")\n' % (1 + r[0]),
+        # (a.p8's code pulls in m.lua with #include: its Lua section is the code with the file spliced in)
+        'a.p8': b'src_a=%d\n#include m.lua\nprint("a")\n' % (1 + r[0]),
         'b.p8': b'src_b=%d\nfunction _draw()\n cls(%d)\nend\n' % (1 + r[1], r[2] % 16),
         # (code that uses _update60 and does not compress: stored as plain text in a .p8.png)
         'c.p8.png': b'src_c=%d\nfunction _update60()\n T="AZ-BY-CX-DW-EV-FU-GT-HS-IR-JQ-KP-LO-MN?"\n'
@@ -166,6 +167,8 @@ def make_pool(seed):
         version = 5 + r[9 + cid] % 37
         pool[name] = {'mem': mem, 'modes': modes, 'version': version, 'sec': _sections(mem, codes[name])}
     pool['m.lua'] = {'sec': {'lua': codes['m.lua']}, 'data': codes['m.lua']}
+    if b'#include m.lua\n' in codes['a.p8']:
+        pool['a.p8']['sec']['lua'] = codes['a.p8'].replace(b'#include m.lua\n', codes['m.lua'])
     pool['a.p8']['label'] = expand(b'alab' + seed, 8192)
     pool['a.p8']['data'] = reffmt.write_p8(pool['a.p8']['version'], codes['a.p8'], pool['a.p8']['mem'],
                                            label=pool['a.p8']['label'])
@@ -344,6 +347,9 @@ def check_build(seed, out_kind, sel, case):
             with open(out, 'wb') as fh:
                 fh.write(before)
         argv = ['build', out] + build_args(td, sel)
+        if bytes(seed)[-1] % 3 == 1 and len(argv) > 2:
+            argv = ['build'] + argv[2:] + [out]          # options first, OUT last: the same command
+            labs.append('out_argument_last')
         shown = ' '.join(os.path.basename(a) if a.startswith(td) else a for a in argv)
         rc, err = run_main(argv)
         if err is not None:
@@ -687,7 +693,7 @@ def vacuity(total, tier):
     need = ['out_' + k for k in OUT_KINDS] + ['err_' + k for k in ERR_KINDS]
     need += ['label_kept_png', 'label_kept_p8', 'label_empty_png', 'mixed_sources', 'lua_from_luafile',
              'err_out_existing', 'err_out_absent', 'twin_pool', 'after_failed_build_in_same_process',
-             'after_succeeded_build_in_same_process', 'all_sections_from_one_cart']
+             'after_succeeded_build_in_same_process', 'all_sections_from_one_cart', 'out_argument_last']
     for sec in SECTIONS:
         need += ['%s_%s' % (sec, k) for k in ('from_p8', 'from_png', 'empty', 'unspecified')]
         need.append('err_conflict_' + sec)
